@@ -14,6 +14,7 @@ NOT_DECIDED = ("the functional equivalence itself: that the overlay of pending r
                "listings under renames, hard links, truncation and extension) equals a reference POSIX tree for every history; that applying "
                "a flushed record to the persisted image leaves the merged view unchanged. Those live in string / offset arithmetic and in the "
                "order-dependent meaning of the log; no structural rule here decides them (DESIGN.md section 6).")
+DECIDED += "; R3 sibling replays of the pending log consider the same record kinds (file_len ~ read_file, dir_entries ~ dir_has_children)"
 ASSUMPTIONS = ["Rust's &T / &mut T discipline: a function taking &Fs cannot mutate the tree (Fs has no interior mutability: checked)"]
 
 OBSERVERS = ["file_exists", "dir_exists", "symlink_exists", "file_len", "read_file", "dir_entries", "read_link", "file_mode", "dir_mode",
